@@ -4,6 +4,7 @@ package c04
 import (
 	stdheap "container/heap"
 	"fmt"
+	"sort"
 	"testing"
 
 	"github.com/welllog/golib/heapz"
@@ -80,37 +81,52 @@ func runHeap(c heapCase, r *pb.Rec) error {
 	for i := 0; i < 5; i++ {
 		foreign = append(foreign, other.Push(val{A: i, ID: -1 - i}))
 	}
-	var live, stale []*heapz.Element[val]
+	// the model is keyed by the unique value ID; handles are learned when the heap hands them out
+	// (Push, Peek, Pop) - after Init(slice) none is known until Peek/Pop reveals one
+	model := map[int]val{}
+	known := map[int]*heapz.Element[val]{} // ID -> handle of a live element
+	var stale []*heapz.Element[val]
 	nextID := 0
 	newVal := func(o hop) val { nextID++; return val{A: o.A, B: o.B, ID: nextID} }
-	dropLive := func(e *heapz.Element[val]) {
-		for i, x := range live {
-			if x == e {
-				live = append(live[:i], live[i+1:]...)
-				return
-			}
+	knownList := func() []*heapz.Element[val] {
+		ids := make([]int, 0, len(known))
+		for id := range known {
+			ids = append(ids, id)
 		}
-	}
-	isLive := func(e *heapz.Element[val]) bool {
-		for _, x := range live {
-			if x == e {
-				return true
-			}
+		sort.Ints(ids)
+		out := make([]*heapz.Element[val], len(ids))
+		for i, id := range ids {
+			out[i] = known[id]
 		}
-		return false
+		return out
 	}
-	minimal := func(e *heapz.Element[val]) error {
-		for _, x := range live {
-			if less(x.Value, e.Value) {
-				return fmt.Errorf("returned %+v but live element %+v precedes it", e.Value, x.Value)
+	// checkOut validates an element handed out by Peek/Pop: a live member, the same handle as before, minimal
+	checkOut := func(e *heapz.Element[val], what string) error {
+		if e == nil {
+			return fmt.Errorf("%s returned nil with %d elements", what, len(model))
+		}
+		m, ok := model[e.Value.ID]
+		if !ok || m != e.Value {
+			return fmt.Errorf("%s returned %+v which is not a live element (model has %+v, present %v)", what, e.Value, m, ok)
+		}
+		if k, ok := known[e.Value.ID]; ok && k != e {
+			return fmt.Errorf("%s returned a different handle for element %d: handles are not stable", what, e.Value.ID)
+		}
+		for _, x := range model {
+			if less(x, e.Value) {
+				return fmt.Errorf("%s returned %+v but live element %+v precedes it", what, e.Value, x)
 			}
 		}
 		return nil
 	}
 	hasTie := func() bool {
-		for i, x := range live {
-			for _, y := range live[i+1:] {
-				if !less(x.Value, y.Value) && !less(y.Value, x.Value) {
+		vs := make([]val, 0, len(model))
+		for _, v := range model {
+			vs = append(vs, v)
+		}
+		for i, x := range vs {
+			for _, y := range vs[i+1:] {
+				if !less(x, y) && !less(y, x) {
 					return true
 				}
 			}
@@ -118,21 +134,24 @@ func runHeap(c heapCase, r *pb.Rec) error {
 		return false
 	}
 	interesting := false
+	afterInit := false
 	for step, o := range c.Ops {
 		fail := func(f string, a ...any) error {
 			return fmt.Errorf("step %d op %d: %s", step, o.K, fmt.Sprintf(f, a...))
 		}
 		switch o.K {
 		case hPush:
-			e := h.Push(newVal(o))
-			if e == nil {
-				return fail("Push returned nil")
+			v := newVal(o)
+			e := h.Push(v)
+			if e == nil || e.Value != v {
+				return fail("Push returned a wrong element")
 			}
-			live = append(live, e)
+			model[v.ID], known[v.ID] = v, e
 		case hPushElemFresh:
-			e := &heapz.Element[val]{Value: newVal(o)}
+			v := newVal(o)
+			e := &heapz.Element[val]{Value: v}
 			h.PushElement(e)
-			live = append(live, e)
+			model[v.ID], known[v.ID] = v, e
 		case hPushElemPopped:
 			if len(stale) == 0 {
 				continue
@@ -142,56 +161,58 @@ func runHeap(c heapCase, r *pb.Rec) error {
 			stale = append(stale[:i], stale[i+1:]...)
 			e.Value = newVal(o)
 			h.PushElement(e)
-			live = append(live, e)
+			model[e.Value.ID], known[e.Value.ID] = e.Value, e
 			r.Class("popped element pushed again")
 		case hPop:
 			e := h.Pop()
-			if len(live) == 0 {
+			if len(model) == 0 {
 				if e != nil {
 					return fail("Pop on empty heap returned %+v", e.Value)
 				}
 				continue
 			}
-			if e == nil || !isLive(e) {
-				return fail("Pop returned %v which is not a live handle", e)
-			}
-			if err := minimal(e); err != nil {
-				return fail("Pop %v", err)
+			if err := checkOut(e, "Pop"); err != nil {
+				return fail("%v", err)
 			}
 			if e.Index() != -1 {
 				return fail("popped element reports Index() = %d", e.Index())
 			}
-			dropLive(e)
+			delete(model, e.Value.ID)
+			delete(known, e.Value.ID)
 			stale = append(stale, e)
 		case hPeek:
 			e := h.Peek()
-			if len(live) == 0 {
+			if len(model) == 0 {
 				if e != nil {
 					return fail("Peek on empty heap returned %+v", e.Value)
 				}
 				continue
 			}
-			if e == nil || !isLive(e) {
-				return fail("Peek returned %v which is not a live handle", e)
+			if err := checkOut(e, "Peek"); err != nil {
+				return fail("%v", err)
 			}
-			if err := minimal(e); err != nil {
-				return fail("Peek %v", err)
+			if _, ok := known[e.Value.ID]; !ok && afterInit {
+				r.Class("handle learned through Peek after Init")
 			}
+			known[e.Value.ID] = e
 		case hRemoveLive:
-			if len(live) == 0 {
+			ks := knownList()
+			if len(ks) == 0 {
 				continue
 			}
-			e := live[o.H%len(live)]
+			e := ks[o.H%len(ks)]
 			idx := e.Index()
-			if len(live) >= 4 && idx > 0 && idx < len(live)-1 && hasTie() {
+			if len(model) >= 4 && idx > 0 && idx < len(model)-1 && hasTie() {
 				interesting = true
 				r.Class("remove by handle in the middle")
 			}
+			r.ClassIf(afterInit, "Remove/Fix by a handle of an Init-built heap")
 			h.Remove(e)
 			if e.Index() != -1 {
 				return fail("removed element reports Index() = %d", e.Index())
 			}
-			dropLive(e)
+			delete(model, e.Value.ID)
+			delete(known, e.Value.ID)
 			stale = append(stale, e)
 		case hRemoveStale:
 			if len(stale) == 0 {
@@ -203,22 +224,23 @@ func runHeap(c heapCase, r *pb.Rec) error {
 			h.Remove(foreign[o.H%len(foreign)])
 			r.Class("foreign handle")
 		case hFixLive:
-			if len(live) == 0 {
+			ks := knownList()
+			if len(ks) == 0 {
 				continue
 			}
-			e := live[o.H%len(live)]
-			old := e.Value
+			e := ks[o.H%len(ks)]
 			idx := e.Index()
 			e.Value.A, e.Value.B = o.A, o.B
-			if len(live) >= 4 && idx > 0 && idx < len(live)-1 && hasTie() {
+			model[e.Value.ID] = e.Value
+			if len(model) >= 4 && idx > 0 && idx < len(model)-1 && hasTie() {
 				interesting = true
 			}
+			r.ClassIf(afterInit, "Remove/Fix by a handle of an Init-built heap")
 			h.Fix(e)
 			if ni := e.Index(); ni >= 0 && idx >= 0 {
 				r.ClassIf(ni < idx, "fix moved up")
 				r.ClassIf(ni > idx, "fix moved down")
 			}
-			_ = old
 		case hFixStale:
 			if len(stale) == 0 {
 				continue
@@ -228,68 +250,67 @@ func runHeap(c heapCase, r *pb.Rec) error {
 			h.Fix(e)
 			r.Class("stale handle")
 		case hFixForeign:
-			e := foreign[o.H%len(foreign)]
-			h.Fix(e)
+			h.Fix(foreign[o.H%len(foreign)])
 			r.Class("foreign handle")
 		case hInit:
-			// all handles of the old content are dropped: Init with live handles is undefined
-			n := o.H % 7
+			// the old content and all its handles are dropped (Init with live handles is undefined);
+			// handles of the new content become known only through Peek/Pop
+			n := o.H % 9
 			s := make([]val, n)
+			model, known, stale = map[int]val{}, map[int]*heapz.Element[val]{}, nil
 			for i := range s {
 				nextID++
-				s[i] = val{A: (o.A + i*o.B) % 6, B: i % 3, ID: nextID}
+				s[i] = val{A: (o.A + i*(o.B+1)*5) % 6, B: i % 3, ID: nextID}
+				model[nextID] = s[i]
 			}
-			live, stale = nil, nil
 			h.Init(s, less)
-			// recover handles by popping everything and pushing the elements back
-			for {
-				e := h.Pop()
-				if e == nil {
-					break
-				}
-				stale = append(stale, e)
-			}
-			if len(stale) != n {
-				return fail("Init(%d values) then drain gave %d elements", n, len(stale))
-			}
-			for i := 1; i < len(stale); i++ {
-				if less(stale[i].Value, stale[i-1].Value) {
-					return fail("drain after Init not sorted: %+v before %+v", stale[i-1].Value, stale[i].Value)
-				}
-			}
-			for _, e := range stale {
-				h.PushElement(e)
-				live = append(live, e)
-			}
-			stale = nil
+			afterInit = true
 			r.Class("Init")
 		case hPopAll:
-			var got []val
-			h.PopAll()(func(v val) bool { got = append(got, v); return true })
-			if len(got) != len(live) {
-				return fail("PopAll yielded %d values, %d live", len(got), len(live))
+			// PopAll is repeated Pop: the loop body may push while draining, or stop early
+			pushes := o.A % 3
+			stopAt := -1
+			if o.B == 2 {
+				stopAt = o.H % 4
 			}
-			seen := map[int]bool{}
-			for i, v := range got {
-				if i > 0 && less(v, got[i-1]) {
-					return fail("PopAll not sorted: %+v before %+v", got[i-1], v)
+			n := 0
+			var bad error
+			h.PopAll()(func(v val) bool {
+				m, ok := model[v.ID]
+				if !ok || m != v {
+					bad = fmt.Errorf("PopAll yielded %+v which is not a live element", v)
+					return false
 				}
-				seen[v.ID] = true
+				for _, x := range model {
+					if less(x, v) {
+						bad = fmt.Errorf("PopAll yielded %+v while %+v, which precedes it, is still stored", v, x)
+						return false
+					}
+				}
+				delete(model, v.ID)
+				if e, ok := known[v.ID]; ok {
+					stale = append(stale, e)
+					delete(known, v.ID)
+				}
+				if n < pushes { // the consumer pushes new work while draining
+					nv := newVal(hop{A: (v.A + n*3 + o.H) % 6, B: n % 3})
+					e := h.Push(nv)
+					model[nv.ID], known[nv.ID] = nv, e
+					r.Class("push during PopAll")
+				}
+				n++
+				return n-1 != stopAt
+			})
+			if bad != nil {
+				return fail("%v", bad)
 			}
-			for _, e := range live {
-				if !seen[e.Value.ID] {
-					return fail("PopAll lost element %+v", e.Value)
-				}
-				if e.Index() != -1 {
-					return fail("element popped by PopAll reports Index() = %d", e.Index())
-				}
+			if stopAt < 0 && len(model) != 0 {
+				return fail("PopAll ended with %d elements left", len(model))
 			}
-			stale = append(stale, live...)
-			live = nil
 			r.Class("PopAll")
 		}
-		if h.Len() != len(live) {
-			return fail("Len = %d, model %d", h.Len(), len(live))
+		if h.Len() != len(model) {
+			return fail("Len = %d, model %d", h.Len(), len(model))
 		}
 		if other.Len() != len(foreign) {
 			return fail("the other heap changed size: %d", other.Len())
@@ -299,30 +320,27 @@ func runHeap(c heapCase, r *pb.Rec) error {
 				return fail("element that left the heap reports Index() = %d", e.Index())
 			}
 		}
-		if e := h.Peek(); len(live) > 0 {
-			if e == nil || !isLive(e) {
-				return fail("Peek after step is not a live handle")
-			}
-			if err := minimal(e); err != nil {
-				return fail("Peek after step: %v", err)
+		if len(model) > 0 {
+			if err := checkOut(h.Peek(), "Peek after step"); err != nil {
+				return fail("%v", err)
 			}
 		}
 	}
-	// final drain by handle identity
+	// final drain
 	var prev *heapz.Element[val]
-	for len(live) > 0 {
+	for len(model) > 0 {
 		e := h.Pop()
-		if e == nil || !isLive(e) {
-			return fmt.Errorf("final drain: Pop returned %v, not a live handle (%d left)", e, len(live))
+		if err := checkOut(e, "final drain: Pop"); err != nil {
+			return err
 		}
 		if prev != nil && less(e.Value, prev.Value) {
 			return fmt.Errorf("final drain not sorted: %+v before %+v", prev.Value, e.Value)
 		}
 		prev = e
-		dropLive(e)
+		delete(model, e.Value.ID)
 	}
 	if h.Pop() != nil || h.Len() != 0 {
-		return fmt.Errorf("heap not empty after draining all live handles")
+		return fmt.Errorf("heap not empty after draining all live elements")
 	}
 	r.NonTrivialIf(interesting)
 	return nil
@@ -477,19 +495,39 @@ func runSlice(c sliceCase, r *pb.Rec) error {
 			}
 			s.Fix(o.H)
 		case sPopAll:
-			var got []val
-			s.PopAll()(func(v val) bool { got = append(got, v); return true })
-			if len(got) != len(model) {
-				return fail("PopAll yielded %d of %d", len(got), len(model))
+			// repeated Pop; the loop body may push while draining, or stop early
+			pushes := o.A % 3
+			stopAt := -1
+			if o.B == 2 {
+				stopAt = (o.H + 1) % 4
 			}
-			for i, v := range got {
-				if i > 0 && less(v, got[i-1]) {
-					return fail("PopAll not sorted")
-				}
+			n := 0
+			var bad error
+			s.PopAll()(func(v val) bool {
 				if m, in := model[v.ID]; !in || m != v {
-					return fail("PopAll invented %+v", v)
+					bad = fmt.Errorf("PopAll invented %+v", v)
+					return false
+				}
+				if err := minimal(v); err != nil {
+					bad = fmt.Errorf("PopAll %v", err)
+					return false
 				}
 				delete(model, v.ID)
+				if n < pushes {
+					id++
+					nv := val{A: (v.A + n*3 + o.H + 6) % 6, B: n % 3, ID: id}
+					s.Push(nv)
+					model[id] = nv
+					r.Class("push during PopAll")
+				}
+				n++
+				return n-1 != stopAt
+			})
+			if bad != nil {
+				return fail("%v", bad)
+			}
+			if stopAt < 0 && len(model) != 0 {
+				return fail("PopAll ended with %d elements left", len(model))
 			}
 		}
 		if err := same(fmt.Sprintf("after step %d (op %d i=%d)", step, o.K, o.H)); err != nil {
@@ -732,10 +770,10 @@ func index(vs []val, id int) int {
 }
 
 func init() {
-	pb.Register("heap_handles", pb.Options{Base: 10000, Required: []string{"stale handle", "foreign handle", "fix moved up", "fix moved down", "remove by handle in the middle", "popped element pushed again", "Init", "PopAll"},
-		Rule: "<= 80 operations on Heap[T] (New with cap 0..4): Push, PushElement (fresh / previously popped element), Pop, Peek, Remove/Fix with live, stale and foreign handles, Init (handles dropped), PopAll; values 0..5 with ties, four strict weak orders; oracle: multiset model keyed by handle identity (Pop/Peek minimal live handle, Index()==-1 after leaving, stale/foreign ignored, Len, final drain by identity sorted); non-trivial = Remove/Fix by handle at a non-root non-last position on a heap of >= 4 elements with a tie"},
+	pb.Register("heap_handles", pb.Options{Base: 10000, Required: []string{"stale handle", "foreign handle", "fix moved up", "fix moved down", "remove by handle in the middle", "popped element pushed again", "Init", "PopAll", "push during PopAll", "handle learned through Peek after Init", "Remove/Fix by a handle of an Init-built heap"},
+		Rule: "<= 80 operations on Heap[T] (New with cap 0..4): Push, PushElement (fresh / previously popped element), Pop, Peek, Remove/Fix with live, stale and foreign handles, Init (old handles dropped; handles of the new content are learned through Peek/Pop and then used for Remove/Fix), PopAll (also with pushes from inside the loop body and early stop); values 0..5 with ties, four strict weak orders; oracle: multiset model keyed by handle identity (Pop/Peek minimal live handle, Index()==-1 after leaving, stale/foreign ignored, Len, final drain by identity sorted); non-trivial = Remove/Fix by handle at a non-root non-last position on a heap of >= 4 elements with a tie"},
 		genHeap, runHeap)
-	pb.Register("slice_heap", pb.Options{Base: 10000, Required: []string{"index out of range"},
+	pb.Register("slice_heap", pb.Options{Base: 10000, Required: []string{"index out of range", "push during PopAll"},
 		Rule: "FromSlice of 0..8 values then <= 60 Push/Pop/Peek/Remove(i)/Fix(i)/PopAll with i in -1..12; oracle: multiset model by element id, !less(child,parent) over Values and Len after every call; non-trivial = Remove/Fix at an inner index of >= 4 elements"},
 		genSlice, runSlice)
 	pb.Register("generic_interface", pb.Options{Base: 8000,
